@@ -196,7 +196,7 @@ Section EvalRepr.
   Proof.
     intros te tv Ht. induction steps as [|s steps IH]; intros fe fv Hf; cbn [apply_steps].
     - exact Hf.
-    - destruct s as [f|c f|f p].
+    - destruct s as [f|c f|f p|f|c f].
       + rewrite (has_key_rel f Hf). destruct (has_key f fv); [apply IH, del_assoc_rel, Hf|reflexivity].
       + rewrite (rcond_eval_rel c Ht). destruct (rcond_eval E tv c) as [b|e]; cbn; [|reflexivity].
         destruct b; [|apply IH, Hf].
@@ -204,6 +204,9 @@ Section EvalRepr.
       + pose proof (get_path_rel p Ht) as R. unfold rel_opt in R.
         destruct (get_path te p), (get_path tv p); try tauto; [|reflexivity].
         apply IH. apply set_assoc_rel; assumption.
+      + apply IH, del_assoc_rel, Hf.
+      + rewrite (rcond_eval_rel c Ht). destruct (rcond_eval E tv c) as [b|e]; cbn; [|reflexivity].
+        destruct b; [apply IH, del_assoc_rel, Hf|apply IH, Hf].
   Qed.
   Lemma dict_entries_rel : forall te tv, rel_tbl te tv -> forall ents, rel_res (dict_entries te ents) (dict_entries tv ents).
   Proof.
